@@ -192,14 +192,16 @@ class Gen:
         flt = rng.choice([None, None, 'k == "v"', 'name EXISTS'])
         filter_ok = True
         if rng.random() < (0.05 if not self.hostile else 0.3):
-            flt, filter_ok = rng.choice(['k ==', '((', 'a == 1 b == 2', 'x DOES NOT']), False
+            flt, filter_ok = rng.choice(['k ==', '((', 'a == 1 b == 2', 'x DOES NOT', 'k == "v" zzz', 'k == "v" and name EXISTS', "name EXISTS 17", 'k == "v" )']), False
+            if rng.random() < 0.5:
+                k, radius = 0, 0          # a listing: nothing but the filter can make the request malformed
         listing = (k == 0 and radius == 0)
         vlen = dim
         if rng.random() < (0.1 if not self.hostile else (0.5 if not self.template else 0.9)):
             vlen = rng.choice([0, dim + 1, dim + 3, max(dim - 1, 0), None])
         v = self.vec(vlen) if vlen is not None else None
         text = rng.random() < 0.03
-        get = rng.random() < 0.25 and not text
+        get = rng.random() < (0.25 if filter_ok else 0.5) and not text
         body_ok = True
         if get:
             qs = ['k=%d' % k, 'radius=%s' % radius, 'offset=%d' % off, 'limit=%d' % lim]
@@ -282,6 +284,26 @@ class Gen:
             ('POST', '/api/v1/collections/%s' % name, '{}'), ('DELETE', '/api/v1/collections', None), ('OPTIONS', '/api/v1/collections', None),
             ('POST', '/api/v1/collections/%s/search' % name, '{"vector": [1e999]}'), ('POST', '/api/v1/collections/%s/records' % name, '[{"id":1,"vector":[1e999]}]'),
             ('GET', '/api/v1/collections/%s/search?k=abc&radius=zzz&offset=-5&limit=-1' % name, None)])
+        if rng.random() < 0.5:
+            # a route of the API with one path segment deleted, doubled or emptied, under every method; the collection and
+            # record named do not exist, so whatever the server makes of it, nothing may change
+            tmpl = rng.choice(['/api/v1/collections/%s/records/999999', '/api/v1/collections/%s/records/999999/metadata', '/api/v1/collections/%s/records',
+                               '/api/v1/collections/%s/ids', '/api/v1/collections/%s/search', '/api/v1/collections/%s']) % GHOST
+            segs = tmpl.split('/')[1:]
+            i = rng.randrange(len(segs))
+            kind = rng.choice(['del', 'dup', 'empty', 'slash'])
+            if kind == 'del':
+                segs = segs[:i] + segs[i + 1:]
+            elif kind == 'dup':
+                segs = segs[:i] + [segs[i]] + segs[i:]
+            elif kind == 'empty':
+                segs = segs[:i] + [''] + segs[i + 1:]
+            else:
+                segs = segs + ['']
+            path = '/' + '/'.join(segs)
+            method = rng.choice(['GET', 'DELETE', 'PUT', 'POST', 'PATCH'])
+            body = {'GET': None, 'DELETE': None, 'PUT': '{"metadata": {"k": "v"}}', 'POST': '[]', 'PATCH': '{}'}[method]
+            name = GHOST
         self.step(method, path, body, None, 'garbage', name=name)
 
     def restart(self):
@@ -528,6 +550,48 @@ def ctor_probe(chk):
     return cases, res, bad, (rc, err)
 
 
+def path_sweep():
+    """C18, arbitrary paths and methods: every route of the API with one path segment deleted, doubled, emptied or a slash
+    appended, under every method, for an existing and for an unknown collection; every request must get a complete
+    response and (none of them being a well-formed mutation of an existing record) nothing may change"""
+    srv = Server()
+    n = 0
+    try:
+        if not srv.start():
+            return n, 'server does not start'
+        srv.request('POST', '/api/v1/collections', {'name': 'alpha', 'distance_function': 'euclidean', 'vector_size': 2, 'quantization': 64})
+        srv.request('POST', '/api/v1/collections/alpha/records', [{'id': 1, 'vector': [1.0, 2.0], 'metadata': {'k': 'v'}}])
+        before = (srv.request('GET', '/api/v1/collections/alpha/ids'), srv.request('GET', '/api/v1/collections/alpha/records/1'), srv.request('GET', '/api/v1/collections'))
+        bodies = {'GET': None, 'DELETE': None, 'PUT': '{"metadata": {"k": "w"}}', 'POST': '[]', 'PATCH': '{}'}
+        for nm, rid in (('alpha', '999999'), (GHOST, '1')):
+            for tmpl in ('/api/v1/collections/%s/records/%s', '/api/v1/collections/%s/records/%s/metadata', '/api/v1/collections/%s/records', '/api/v1/collections/%s/ids',
+                         '/api/v1/collections/%s/search', '/api/v1/collections/%s'):
+                segs0 = (tmpl % ((nm, rid) if tmpl.count('%s') == 2 else (nm,))).split('/')[1:]
+                variants = []
+                for i in range(len(segs0)):
+                    if segs0[i] != nm or nm == GHOST:
+                        variants.append(segs0[:i] + segs0[i + 1:])
+                    variants.append(segs0[:i] + [segs0[i]] + segs0[i:])
+                    variants.append(segs0[:i] + [''] + segs0[i + 1:])
+                variants.append(segs0 + [''])
+                for segs in variants:
+                    path = '/' + '/'.join(segs)
+                    # mutating methods only where no existing collection is named: a shortened path may be a well-formed drop
+                    for method in (('GET', 'PATCH') if nm == 'alpha' else ('GET', 'DELETE', 'PUT', 'POST', 'PATCH')):
+                        st, body = srv.request(method, path, bodies[method])
+                        n += 1
+                        if st == 'dropped':
+                            return n, 'the request %s %s received no response (connection dropped): %s' % (method, path, str(body)[:100])
+                        if not srv.alive():
+                            return n, 'the server is gone after %s %s' % (method, path)
+        after = (srv.request('GET', '/api/v1/collections/alpha/ids'), srv.request('GET', '/api/v1/collections/alpha/records/1'), srv.request('GET', '/api/v1/collections'))
+        if after != before:
+            return n, 'the sweep of malformed paths changed the collection: %s -> %s' % (str(before)[:200], str(after)[:200])
+    finally:
+        srv.cleanup()
+    return n, None
+
+
 def check(prop, tier, seed, replay=None):
     chk = Check(prop, tier, seed)
     build = build_all()
@@ -682,6 +746,13 @@ def check(prop, tier, seed, replay=None):
                     nviol += 1
                     break
         chk.notes.append('extended search ran %d further histories concentrated on %s requests' % (ext, corr['kind']))
+    # ---- C18: arbitrary paths and methods
+    if prop == 'C18' and nviol == 0 and ok:
+        nreq, why = path_sweep()
+        stats['path_sweep_requests'] = nreq
+        if why:
+            chk.violation({'engine': 'rest', 'what': why, 'signature': 'rest:C18:path-sweep'})
+            nviol += 1
     # ---- C18: embedded constructor
     if prop == 'C18' and nviol == 0:
         cases, res, bad, (rc, err) = ctor_probe(chk)
